@@ -16,6 +16,7 @@ CLAIMS = {
  "C08": {"engine": "E1-package-pbt", "technique": "property-based testing under the race detector: generated target files and per-target outcomes through the real application engine, exactly-once multiset oracle", "design_ref": "DESIGN.md §2 C08", "text": "x", "note": "y"},
  "C01": {"engine": "E2-cmdwire", "technique": "property-based testing: generated target specifications through full commands on a virtual wire, multiset equality with an independent denotation", "design_ref": "DESIGN.md §2 C01", "text": "x", "note": "y"},
  "C02": {"engine": "E2-cmdwire", "technique": "property-based testing: grammar-generated target strings against a reference IPv4 recogniser at parser and command level; exclusion lists against prefix-match membership", "design_ref": "DESIGN.md §2 C02", "text": "x", "note": "y"},
+ "C03": {"engine": "E2-cmdwire", "technique": "property-based testing: generated traffic scripts against full commands on a virtual wire running the installed BPF text; independent reply-shape classifier as oracle", "design_ref": "DESIGN.md §2 C03", "text": "x", "note": "y"},
  "C04": {
   "engine": "E1-package-pbt",
   "technique": "property-based testing: bitmap permutation oracle on generated sizes/seeds + exhaustive number-theoretic check of the 32-row table with generated draws",
